@@ -140,6 +140,20 @@ def has_ite(e):
     return False
 
 
+def qforall(vs, body, pats=None):
+    """ForAll with hand-chosen triggers when they are legal (no ite inside), otherwise z3's own choice."""
+    if pats:
+        flat = []
+        for p_ in pats:
+            flat += list(p_) if isinstance(p_, (list, tuple)) else [p_]
+        if not any(has_ite(x) for x in flat):
+            try:
+                return z3.ForAll(vs, body, patterns=[z3.MultiPattern(*p_) if isinstance(p_, (list, tuple)) else p_ for p_ in pats])
+            except z3.Z3Exception:
+                pass
+    return z3.ForAll(vs, body)
+
+
 def const_str(txt):
     arr = z3.K(I, iv(0))
     for i, ch in enumerate(txt):
@@ -190,6 +204,20 @@ class Row:
     pass
 
 
+class ZipSeq:
+    """element-wise a - b of two 1-D numpy arrays of equal length (lazy: element j is a[j] - b[j])."""
+
+    def __init__(self, a, b):
+        self.a, self.b, self.n = a, b, a.n
+        self.kind, self.elem, self.dtype = "nd", "int", a.dtype
+
+    def at(self, j):
+        return self.a.at(j) - self.b.at(j)
+
+    def trigger(self, p):
+        return self.a.at(p)
+
+
 class MaskV:
     """numpy boolean mask  <1-D array> <op> <scalar>  kept symbolic: cond(j) is the truth value at position j."""
 
@@ -199,9 +227,15 @@ class MaskV:
     def cond(self, j):
         return self.pred(self.seq.at(j))
 
-    def cond_abs(self, i):
-        raw = self.seq.arr[i]
-        return self.pred(raw if self.seq.delta == 0 else add(raw, self.seq.delta))
+    def trigger(self, p):
+        return self.seq.trigger(p) if isinstance(self.seq, ZipSeq) else self.seq.at(p)
+
+
+class MaybeFloat:
+    """an integer-valued numpy scalar whose dtype is float64 when `when` holds (sum / % over array([]) without a dtype)."""
+
+    def __init__(self, value, when):
+        self.value, self.when = value, when
 
 
 class Obj:
